@@ -59,7 +59,8 @@ def std_history(case):
     o.nested_samples = [{"logL": 0.0, "id": i} for i in st["ns"]]
     o.max_iteration = np.inf if case["cap"] is None else case["cap"]
     o.prior_sampling = case["prior"]
-    o.initialised = False
+    # a sampler that has run before (or was unpickled) carries initialised=True; a new one False
+    o.initialised = not (st["live"] is None and not st["fin"] and st["it"] == 0)
     o.nlive = 5
     o.maximum_uninformed = 0
     o.uninformed_sampling = False
@@ -467,6 +468,8 @@ def run_ins(job):
             e["live_idx"] = [int(i) for i in os_.live_points_indices]
             e["nested_idx"] = [int(i) for i in os_.nested_samples_indices]
             e["threshold"] = num(os_.log_likelihood_threshold)
+            from nessai.utils.stats import effective_sample_size
+            e["ess_stats"] = num(effective_sample_size(s["logL"] + s["logW"]))
         rec["its"].append(e)
         return r
 
